@@ -29,6 +29,16 @@ def run(ctx):
                            lambda cell, src=src: [posit_arg(src, cell[0][0], cell[0][1], 0)], [cells],
                            conv_spec(src, dst), dst.bits, exhaustive_limit=256 if src.bits == 8 else 0)
             tot += decided(st)
+    import rules_routing
+    ctx.rules.append('R7 bit routing equality per source regime cell for the three widening conversions')
+    rc = rp = 0
+    for src, dst in PAIRS[:3]:
+        path = anchor(ctx, prog, dst, 'from_' + LOWER[src.name])
+        if path:
+            c, p_ = rules_routing.check_conversion(ctx, prog, 'R7', '%s::from_%s' % (dst.name, LOWER[src.name]), path, src, 'posit', dst)
+            rc += c
+            rp += p_
+    ctx.require('C08 widening routing cells proved', rp, 162)
     ctx.require('C08 decided cells', tot, 200)
     ctx.undecided['general_path'] = 'guard+sticky rounding of the narrowing conversions between the saturation thresholds; widen-then-narrow identity'
     return LEVEL, ('Zero/NaR preservation and saturation thresholds of the six conversions (both spellings) decided per cell; '
